@@ -94,7 +94,7 @@ pub fn garg() -> BoxedStrategy<String> {
 
 pub const KEY_UNIVERSE: &[&str] = &[
     "a", "A", "b", "B", "k", "K.1", "k.1", "repository_url", "Repository_URL", "checksum", "CHECKSUM", "Checksum", "", "!", "a b",
-    "é", "a=b", "%61", "z-9_",
+    "é", "a=b", "%61", "z-9_", "9", "1a", ".a", "-", "_", "a_", "ab", "a_b", "a-", "a.", "file_name", "filename",
 ];
 
 pub fn gkey_any() -> BoxedStrategy<String> {
